@@ -236,24 +236,23 @@ def r3(ctx, vals):
     ctx.ob('C14.R3', fn, cons[0] if cons else fn.body, ok, 'consume exactly once',
            '%d readConsumed call(s), outside loops, on every path to the exit: %s' % (len(cons), ok))
     # second subscript read
-    subs = sorted((fn.line_of(n), n) for n in fn.all('ArraySubscriptExpr') if fn.key(fn.nodes[n]['base']) == 'data')
+    subs = buffer_reads(fn)
     if len(subs) < 2:
         raise AnalysisBroken('C14.R3: buffer reads not recognised')
     second = subs[1][1]
     idx = fn.key(fn.nodes[second]['idx'])
+    ln = fn.P(1)
     # the completeness test: (kind == BYTE1 && len < pos + 2) -> break. Its being false plus kind != BYTE2 plus the flag
     # bit being set leaves kind == BYTE1 and len >= pos + 2.
     b1, b2, mask, flag = vals.get('ENH_BYTE1'), vals.get('ENH_BYTE2'), vals.get('ENH_BYTE_MASK'), vals.get('ENH_BYTE_FLAG')
     two_valued = mask is not None and flag is not None and (mask & flag) == flag and bin(mask).count('1') == 2 and \
         {b1, b2} == {mask, flag}
-    len_ok = fn.needs_one_of(second, [('(len < (%s + #2))' % idx, False), ('(len >= (%s + #2))' % idx, True),
-                                      ('((%s + #2) > len)' % idx, False), ('((%s + #1) < len)' % idx, True)])
     # weaker: the test exists on every path either as "kind != BYTE1" or "len >= pos+2"; combine with kind == BYTE2 -> continue
     kindvar = None
     for nid, d, rhs, op, lhs in fn.assignments():
         if op == 'init' and rhs is not None and ('& #%d)' % mask) in fn.key(rhs):
             kindvar = d.split(':')[-1]
-    alts = [('(len < (%s + #2))' % idx, False)]
+    alts = [('(%s < (%s + #2))' % (ln, idx), False)]
     if kindvar:
         alts.append(('(%s == #%d)' % (kindvar, b1), False))
     passes_test = fn.needs_one_of(second, alts)
@@ -271,6 +270,30 @@ def r3(ctx, vals):
            'cursor advanced past the first byte only after the completeness test: %s' % ok2)
 
 
+def buffer_reads(fn):
+    """subscript reads of the buffer parameter (first parameter; a later local may shadow its name), in source order"""
+    pd = fn.params[0].get('decl') if fn.params else None
+    out = []
+    for n in fn.all('ArraySubscriptExpr'):
+        b = fn.nodes.get(fn.strip(fn.nodes[n]['base'], casts=True), {})
+        if b.get('k') == 'DeclRefExpr' and b.get('rk') == 'param' and (pd is None or b.get('decl') == pd) and b.get('name') == fn.P(0):
+            out.append((fn.line_of(n), n))
+    return sorted(out)
+
+
+def more_var(ctx, fn):
+    """the local whose truth makes the function return RESULT_CONTINUE"""
+    cont = None
+    for en, e in ctx.fb.enums.items():
+        for x in e['enumerators']:
+            if x['name'] == 'RESULT_CONTINUE':
+                cont = x['v']
+    for nid, v in fn.nodes.items():
+        if v['k'] == 'ConditionalOperator' and cont is not None and fn.val(v.get('then')) == cont:
+            return fn.key(v['cond'])
+    return None
+
+
 def subs_var(fn, sub):
     """name of the local initialised from the subscript node"""
     for nid, d, rhs, op, lhs in fn.assignments():
@@ -286,10 +309,16 @@ def r4(ctx, vals):
     fb = ctx.fb
     fn = fb.fn(DEC)
     flag = vals.get('ENH_BYTE_FLAG')
-    subs = sorted((fn.line_of(n), n) for n in fn.all('ArraySubscriptExpr') if fn.key(fn.nodes[n]['base']) == 'data')
+    subs = buffer_reads(fn)
+    if not subs:
+        raise AnalysisBroken('C14.R4: buffer reads not recognised')
     ch = subs_var(fn, subs[0][1])
     idx = fn.key(fn.nodes[subs[0][1]]['idx'])
-    mores = [nid for nid, d, rhs, op, lhs in fn.assignments() if d and d.endswith(':more') and rhs is not None and fn.val(rhs) == 1]
+    ln = fn.P(1)
+    mv = more_var(ctx, fn)
+    if mv is None:
+        raise AnalysisBroken('C14.R4: the return of RESULT_CONTINUE was not recognised')
+    mores = [nid for nid, d, rhs, op, lhs in fn.assignments() if d and d.endswith(':' + mv) and rhs is not None and fn.val(rhs) == 1]
     if len(mores) < 1:
         raise AnalysisBroken('C14.R4: "more" assignments not recognised')
     b1, b2, mask = vals.get('ENH_BYTE1'), vals.get('ENH_BYTE2'), vals.get('ENH_BYTE_MASK')
@@ -302,10 +331,10 @@ def r4(ctx, vals):
         # complete sequence: flag bit set, kind is not BYTE2, and (kind != BYTE1 or len >= pos+2) -- with the two-valued kind
         # (C14.R3) this leaves kind == BYTE1 and the second byte buffered
         complete = kindvar is not None and fn.needs_one_of(m, [('(%s & #%d)' % (ch, flag), True)]) and \
-            fn.needs_one_of(m, [('(len < (%s + #2))' % idx, False), ('(%s == #%d)' % (kindvar, b1), False)]) and \
+            fn.needs_one_of(m, [('(%s < (%s + #2))' % (ln, idx), False), ('(%s == #%d)' % (kindvar, b1), False)]) and \
             fn.needs_one_of(m, [('(%s == #%d)' % (kindvar, b2), False)])
         ctx.ob('C14.R4', fn, m, plain or complete, 'more = true', 'for a plain byte: %s; for a complete sequence: %s' % (plain, complete))
-    stores = [nid for nid, d, rhs, op, lhs in fn.assignments() if lhs is not None and fn.key(lhs) == '*value']
+    stores = [nid for nid, d, rhs, op, lhs in fn.assignments() if lhs is not None and fn.key(lhs) == '*' + fn.P(2)]
     # path-sensitive: track the flag that records "a value was stored" (the variable assigned true next to the store)
     flagvar = None
     for nid, d, rhs, op, lhs in fn.assignments():
@@ -395,13 +424,15 @@ def r7(ctx):
         for nid, d, rhs, op, lhs in rc.assignments():
             if op == 'init' and rhs is not None and d and d.split(':')[-1] == a[2]:
                 tail = rc.key(rhs)
-        ok = rc.nodes[c].get('callee') == 'memmove' and a[0] == 'this.m_buffer' and a[1] == '(this.m_buffer + len)' and \
-            (tail == '(this.m_bufLen - len)' or a[2] == '(this.m_bufLen - len)')
+        ln = rc.P(0)
+        ok = rc.nodes[c].get('callee') == 'memmove' and a[0] == 'this.m_buffer' and a[1] == '(this.m_buffer + %s)' % ln and \
+            (tail == '(this.m_bufLen - %s)' % ln or a[2] == '(this.m_bufLen - %s)' % ln)
         atoms = set((x[0], x[1]) for x in rc.atoms(c))
-        ok = ok and ('(len < this.m_bufLen)', True) in atoms
+        ok = ok and ('(%s < this.m_bufLen)' % ln, True) in atoms
         ctx.ob('C14.R7', rc, c, ok, 'tail move', 'memmove(%s) tail=%s under %s' % (', '.join(a), tail, sorted(atoms)))
     sets = [(nid, rc.key(rhs)) for nid, d, rhs, op, lhs in rc.assignments() if d == 'this.m_bufLen' and rhs is not None]
-    ok = sorted(k for _, k in sets) in (['#0', 'tail'], ['#0', '(this.m_bufLen - len)'])
+    tails = rc.local_where(lambda k, r: k == '(this.m_bufLen - %s)' % rc.P(0))
+    ok = sorted(k for _, k in sets) in ([['#0', t] for t in tails] + [sorted(['#0', '(this.m_bufLen - %s)' % rc.P(0)])])
     ctx.ob('C14.R7', rc, rc.body, ok and bool(mm), 'remaining length', 'm_bufLen := %s' % sorted(k for _, k in sets))
 
 
